@@ -28,7 +28,8 @@ ASSUMPTIONS = [
 ]
 SHARDS = {"quick": 8, "thorough": 16}
 
-GROUP_OF = {"photon": "photon_collection", "photon3d": "photon_collection", "scene": "scene_generation",
+GROUP_OF = {"photon": "photon_collection", "photon3d": "photon_collection", "photon_iadd": "photon_collection", "pixel_iadd": "charge_collection",
+            "signal_iadd": "charge_measurement", "scene": "scene_generation",
             "charge": "charge_generation", "clusters": "charge_generation", "pixel": "charge_collection",
             "signal": "charge_measurement", "image": "readout_electronics", "data": "data_processing"}
 IMG_MAX = {"uint8": 255, "uint16": 65535, "uint32": 2**32 - 1, "uint64": 2**53}
@@ -48,15 +49,24 @@ def cases(draw, big_uint64=False):
     plan = {}
     # cluster tables are kept rare: pyxel re-JITs its binning kernel on every read (~0.1 s each)
     pool = list(GROUP_OF) if draw(st.sampled_from([False] * 7 + [True])) else [b for b in GROUP_OF if b != "clusters"]
+    pool = [b for b in pool if not b.endswith("_iadd")]
     buckets = draw(st.lists(st.sampled_from(pool), unique=True, min_size=1, max_size=7))
     if "photon" in buckets and "photon3d" in buckets:
         buckets.remove(draw(st.sampled_from(["photon", "photon3d"])))
+    # a second model of the same group that updates the bucket IN PLACE after the first one wrote it
+    for base in ("photon", "pixel", "signal"):
+        if base in buckets and draw(st.booleans()):
+            buckets.insert(buckets.index(base) + 1, base + "_iadd")
     for b in buckets:
         if b == "image":
             dt = draw(st.sampled_from(["uint8", "uint16", "uint32", "uint64"]))
             mx = IMG_MAX[dt] if not (big_uint64 and dt == "uint64") else 2**64 - 1
             v = st.one_of(st.integers(0, 300).map(lambda k, mx=mx: min(k, mx)), st.sampled_from([mx, mx - 1, mx // 2]))
             vals = draw(st.lists(v, min_size=n, max_size=n))
+        elif b.endswith("_iadd"):
+            dt = "float64"
+            base_vals = plan[b.split("_")[0]]["values"]
+            vals = [None if bv is None else draw(st.integers(1, 50)) for bv in base_vals]  # only where the bucket was initialised
         else:
             dt = draw(st.sampled_from(["float64", "float64", "float32", "float16"])) if b in ("photon", "photon3d", "signal") else "float64"
             vals = draw(st.lists(st.one_of(st.none(), st.integers(1, 250)), min_size=n, max_size=n))
@@ -247,6 +257,7 @@ def _check_debug(case, res, snaps, rec):
     for step, tag, before, after in events:
         b = tag[2:]
         g = GROUP_OF[b]
+        rec_name = b.split("_")[0] if b.endswith("_iadd") else b
         path = f"time_idx_{step}/{g}/{tag}"
         try:
             node = inter[path]
